@@ -27,7 +27,7 @@
 
 #define ISCOMMA(c) ((c == ',') ? 1 : 0)
 
-static char *symptr[VSFIELDMAX];                   /* array of ptrs to tokens  ? */
+static char *symptr[VSFIELDMAX + 1];               /* array of ptrs to tokens, NULL behind the last one */
 static char  sym[VSFIELDMAX][FIELDNAMELENMAX + 1]; /* array of tokens ? */
 static int   nsym;                                 /* token index ? */
 
@@ -93,7 +93,9 @@ scanattrs(const char *attrs, int32 *attrc, char ***attrv)
             if (len <= 0)
                 return FAIL;
 
-            /* save that token */
+            /* save that token, if the table has room for it */
+            if (nsym >= VSFIELDMAX)
+                return FAIL;
             ss = symptr[nsym] = sym[nsym];
             nsym++;
 
@@ -122,6 +124,8 @@ scanattrs(const char *attrs, int32 *attrc, char ***attrv)
     /* save the last token */
     len = (int)(s - s0);
     if (len <= 0)
+        return FAIL;
+    if (nsym >= VSFIELDMAX)
         return FAIL;
     ss = symptr[nsym] = sym[nsym];
     nsym++;
